@@ -597,7 +597,7 @@ package diam
 //@ end
 //@
 //@ func (*Message).WriteToStreamWithRetry(m, writer, stream, retries) (n, err)
-//@   property C07 C16
+//@   property C03 C07 C16
 //@   requires serialisable(m) && writer != nil && 0 <= written(writer) && written(writer) < 1<<44
 //@   hint wf.def(m.AVP)
 //@   modifies written(writer), wstream(writer), wlog(writer)[written(writer):written(writer)+20+sumlen(m.AVP, len(m.AVP))], bufslice(any), bytes(any), inpool(any)
@@ -1104,4 +1104,43 @@ package diam
 //@   property C08
 //@   modifies
 //@   ensures [C08] hands_back_the_writer_of_a_new_connection: err == nil ==> c != nil && typeis(c, *response) && fresh(c.(*response))
+//@ end
+//@
+//@ # ======================= re-serialisation (C03) =====
+//@ # "re-serialisation of a decoded message never panics": the buffer is sized by what will be written (Len(), the sum
+//@ # over the decoded values), never by a length the input claimed
+//@ func (*Message).Serialize(m) (b, err)
+//@   property C02 C03
+//@   requires serialisable(m)
+//@   hint wf.def(m.AVP)
+//@   modifies
+//@   ensures [C02 C03] as_long_as_its_length: err == nil ==> len(b) == 20 + sumlen(m.AVP, len(m.AVP)) && fresh(b)
+//@ end
+//@ func (*AVP).Serialize(a) (b, err)
+//@   property C02 C03
+//@   requires a != nil
+//@   requires valid_data: a.Data != nil ==> deepvalid(a.Data) && dlen(a.Data) >= 0 && dlen(a.Data) < (1<<24) - 12
+//@   modifies
+//@   ensures [C02 C03] as_long_as_its_length: err == nil ==> len(b) == avplen(a) && fresh(b)
+//@   ensures nodata: a.Data == nil <==> err != nil
+//@ end
+//@ # the payload of a group: its members one after the other, each padded (the byte content is not stated here: the
+//@ # interface-level contract of Serialize for groups stays assumed, see DESIGN II.2)
+//@ func (*GroupedAVP).Serialize(g) (b)
+//@   property C02 C03
+//@   requires g != nil && wf(g.AVP) && len(g.AVP) < 1<<16 && sumlen(g.AVP, len(g.AVP)) >= 0 && sumlen(g.AVP, len(g.AVP)) < (1<<24) - 20
+//@   hint wf.def(g.AVP)
+//@   assumepre SerializeTo.separate: the byte views held by the members existed before the buffer that is allocated here
+//@   modifies
+//@   ensures [C02 C03] as_long_as_its_length: len(b) == sumlen(g.AVP, len(g.AVP)) && fresh(b)
+//@   loop 0
+//@     modifies b[0:len(b)]
+//@     invariant 0 - 1 <= rangeindex && rangeindex < len(g.AVP) && fresh(b) && len(b) == sumlen(g.AVP, len(g.AVP))
+//@     invariant [C02 C03] cursor: n == sumlen(g.AVP, rangeindex + 1)
+//@     hint sumlen.unfold(g.AVP, rangeindex + 2)
+//@     hint sumlen.mono(g.AVP, rangeindex + 2, len(g.AVP))
+//@     hint sumlen.mono(g.AVP, rangeindex + 1, len(g.AVP))
+//@     hint sumlen.nonneg(g.AVP, rangeindex + 1)
+//@     hint sumlen.elem(g.AVP, rangeindex + 1)
+//@   end
 //@ end
